@@ -6,8 +6,10 @@ import (
 	"go/ast"
 	"go/token"
 	"go/types"
+	"strings"
 
 	"golang.org/x/tools/go/cfg"
+	"golang.org/x/tools/go/types/typeutil"
 )
 
 type nodeRef struct {
@@ -399,6 +401,20 @@ func isSuccessReturn(info *types.Info, sig *types.Signature, ret *ast.ReturnStmt
 	r := ast.Unparen(ret.Results[idx])
 	if tv, ok := info.Types[r]; ok && tv.IsNil() {
 		return true, true
+	}
+	// a call whose result is forwarded may succeed: only the error constructors
+	// are known failures
+	if call, ok := r.(*ast.CallExpr); ok {
+		if f, _ := typeutil.Callee(info, call).(*types.Func); f != nil && f.Pkg() != nil {
+			switch f.Pkg().Path() {
+			case "fmt", "errors", "github.com/pkg/errors":
+				return false, true
+			}
+			if s, _ := f.Type().(*types.Signature); s != nil && s.Recv() == nil && strings.HasSuffix(f.Name(), "Errorf") {
+				return false, true
+			}
+		}
+		return false, false
 	}
 	return false, true
 }
